@@ -108,9 +108,11 @@ def main(ck):
     # twice: a fiber switch offered before every wrapped operation (the plain code that follows an operation runs in one
     # piece with it), then after every wrapped operation (a fiber can stop between its operation and the plain code
     # that follows it, e.g. a store into something it has just published)
+    # "--weak 1": one injected spurious failure of a compare_exchange_weak per execution (the unique-future path has no
+    # weak CAS as pinned, so this costs nothing there; a strong CAS weakened without a retry loop becomes a concrete input)
     rows, seen = [], set()
     for ya in ("before", "after"):
-        rows_y, out, err, rc = runner.run_harness(exe, ["--mode", "dfs", "--yield-at", ya])
+        rows_y, out, err, rc = runner.run_harness(exe, ["--mode", "dfs", "--yield-at", ya, "--weak", "1"])
         if rc != 0:
             m = re.search(r"CRASH signal=(\d+) choices=([\d,]*)", out + err)
             ck.hits.append(dict(what="harness crashed (rc=%d) %s" % (rc, (err or out)[-600:]),
@@ -196,7 +198,7 @@ def replay(ck, path):
         return 0
     exe, b = vlib.compile_harness("F", [os.path.join(vlib.VERIF, "harness", "h_c01.cpp")], "c01")
     rows, out, err, rc = runner.run_harness(exe, ["--mode", "replay", "--exact", rp["scenario"], "--choices", rp["choices"],
-                                                  "--yield-at", rp.get("yield_at") or "before"])
+                                                  "--yield-at", rp.get("yield_at") or "before", "--weak", "1"])
     print(out)
     bad = any(r.get("fail") for r in rows if "trace" in r)
     return 1 if bad or rc != 0 else 0
